@@ -459,6 +459,7 @@ nni_aio_reset(nni_aio *aio)
 	aio->a_result           = NNG_OK;
 	aio->a_count            = 0;
 	aio->a_abort            = false;
+	aio->a_done             = false;
 	aio->a_expire_ok        = false;
 	aio->a_sleep            = false;
 	aio->a_skipped_callback = NULL;
@@ -515,6 +516,7 @@ nni_aio_start(nni_aio *aio, nni_aio_cancel_fn cancel, void *data)
 		aio->a_count     = 0;
 		aio->a_result    = NNG_ESTOPPED;
 		aio->a_stopped   = true;
+		aio->a_done      = true;
 		NNI_VERIF_AIO(VT_START_STOPPED, aio, 0);
 		nni_mtx_unlock(&eq->eq_mtx);
 		nni_task_dispatch(&aio->a_task);
@@ -525,6 +527,7 @@ nni_aio_start(nni_aio *aio, nni_aio_cancel_fn cancel, void *data)
 		aio->a_abort     = false;
 		aio->a_expire_ok = false;
 		aio->a_count     = 0;
+		aio->a_done      = true;
 		NNI_ASSERT(aio->a_result != NNG_OK);
 		NNI_VERIF_AIO(VT_START_ABORTED, aio, 0);
 		nni_mtx_unlock(&eq->eq_mtx);
@@ -537,6 +540,7 @@ nni_aio_start(nni_aio *aio, nni_aio_cancel_fn cancel, void *data)
 		aio->a_result    = aio->a_expire_ok ? NNG_OK : NNG_ETIMEDOUT;
 		aio->a_expire_ok = false;
 		aio->a_count     = 0;
+		aio->a_done      = true;
 		NNI_VERIF_AIO(VT_START_TIMEOUT, aio, 0);
 		nni_mtx_unlock(&eq->eq_mtx);
 		nni_task_dispatch(&aio->a_task);
@@ -544,6 +548,7 @@ nni_aio_start(nni_aio *aio, nni_aio_cancel_fn cancel, void *data)
 	}
 
 	NNI_ASSERT(aio->a_cancel_fn == NULL);
+	aio->a_done       = false;
 	aio->a_cancel_fn  = cancel;
 	aio->a_cancel_arg = data;
 
@@ -573,9 +578,11 @@ nni_aio_abort(nni_aio *aio, nng_err rv)
 		arg               = aio->a_cancel_arg;
 		aio->a_cancel_fn  = NULL;
 		aio->a_cancel_arg = NULL;
-		if (fn == NULL) {
+		if ((fn == NULL) && (!aio->a_done)) {
 			// We haven't been scheduled yet,
 			// so make sure that schedule will abort.
+			// (An operation that has already completed keeps
+			// its result: there is nothing left to abort.)
 			aio->a_abort  = true;
 			aio->a_result = rv;
 		}
@@ -603,6 +610,7 @@ nni_aio_finish_impl(
 	nni_aio_expire_rm(aio);
 	aio->a_result     = rv;
 	aio->a_count      = count;
+	aio->a_done       = true;
 	aio->a_cancel_fn  = NULL;
 	aio->a_cancel_arg = NULL;
 	if (msg) {
@@ -848,6 +856,7 @@ nni_aio_expire_loop(void *arg)
 			if (aio->a_sleep) {
 				aio->a_result = rv;
 				aio->a_sleep  = false;
+				aio->a_done   = true;
 				NNI_VERIF_AIO(VT_EXPIRE, aio, (int) rv);
 				nni_task_dispatch(&aio->a_task);
 			} else if (cancel_fn != NULL) {
